@@ -204,3 +204,52 @@ package meta
 //@   property C14
 //@   requires y != nil
 //@   assigns nothing
+
+// ---- C02: numbering of enums and bits (RFC 7950 9.6.4.2 / 9.7.4.2) -----------------------------------------------
+// a stated value is kept; an unstated one is 0 for the first entry and one more than the highest value so far
+// otherwise (stated without recursion: above every earlier value, and exactly one above one of them).
+//@ func numberEnums(enums []*Enum) val.EnumList
+//@   mode int
+//@   property C02
+//@   requires forall k int :: 0 <= k && k < len(enums) ==> enums[k] != nil && (enums[k].valSet ==> 0 <= enums[k].val && enums[k].val <= 2147483647)
+//@   requires len(enums) <= 1000000
+//@   requires forall j int, k int :: 0 <= j && j < k && k < len(enums) ==> enums[j] != enums[k]
+//@   assigns Enum.val
+//@   loop 1 invariant -1 <= rangeindex && rangeindex < len(enums) && len(list) == len(enums) && fresh(list)
+//@   loop 1 invariant -1 <= highest && highest <= 2147483647 + rangeindex + 1
+//@   loop 1 invariant forall k int :: 0 <= k && k <= rangeindex ==> list[k].Id == enums[k].val && enums[k].val <= highest && 0 <= enums[k].val
+//@   loop 1 invariant forall k int :: 0 <= k && k <= rangeindex && old(enums[k].valSet) ==> enums[k].val == old(enums[k].val)
+//@   loop 1 invariant forall k int :: rangeindex < k && k < len(enums) ==> enums[k].val == old(enums[k].val)
+//@   loop 1 invariant forall k int :: 0 <= k && k < len(enums) ==> enums[k].valSet == old(enums[k].valSet)
+//@   loop 1 invariant rangeindex == -1 ? highest == -1 : (exists j int :: 0 <= j && j <= rangeindex && enums[j].val == highest)
+//@   loop 1 invariant forall k int, j int :: 0 <= j && j < k && k <= rangeindex && !enums[k].valSet ==> enums[j].val < enums[k].val
+//@   loop 1 invariant forall k int :: 0 < k && k <= rangeindex && !enums[k].valSet ==> (exists j int :: 0 <= j && j < k && enums[k].val == enums[j].val + 1)
+//@   loop 1 invariant rangeindex >= 0 && !enums[0].valSet ==> enums[0].val == 0
+//@   loop 1 decreases len(enums) - rangeindex
+//@   ensures len(result) == len(enums)
+//@   ensures [unstatedAboveEarlier] forall k int, j int :: 0 <= j && j < k && k < len(enums) && !enums[k].valSet ==> enums[j].val < enums[k].val
+//@   ensures [unstatedIsNext] forall k int :: 0 < k && k < len(enums) && !enums[k].valSet ==> (exists j int :: 0 <= j && j < k && enums[k].val == enums[j].val + 1)
+//@   ensures [firstIsZero] len(enums) > 0 && !enums[0].valSet ==> enums[0].val == 0
+//@   ensures [ids] forall k int :: 0 <= k && k < len(enums) ==> result[k].Id == enums[k].val
+//@   ensures [statedKept] forall k int :: 0 <= k && k < len(enums) && enums[k].valSet ==> enums[k].val == old(enums[k].val)
+//@ func numberBits(bits []*Bit)
+//@   mode int
+//@   property C02
+//@   requires forall k int :: 0 <= k && k < len(bits) ==> bits[k] != nil && (bits[k].posSet ==> 0 <= bits[k].Position && bits[k].Position <= 2147483647)
+//@   requires len(bits) <= 1000000
+//@   requires forall j int, k int :: 0 <= j && j < k && k < len(bits) ==> bits[j] != bits[k]
+//@   assigns Bit.Position
+//@   loop 1 invariant -1 <= rangeindex && rangeindex < len(bits)
+//@   loop 1 invariant -1 <= highest && highest <= 2147483647 + rangeindex + 1
+//@   loop 1 invariant forall k int :: 0 <= k && k <= rangeindex ==> bits[k].Position <= highest && 0 <= bits[k].Position
+//@   loop 1 invariant forall k int :: 0 <= k && k <= rangeindex && old(bits[k].posSet) ==> bits[k].Position == old(bits[k].Position)
+//@   loop 1 invariant forall k int :: rangeindex < k && k < len(bits) ==> bits[k].Position == old(bits[k].Position)
+//@   loop 1 invariant rangeindex == -1 ? highest == -1 : (exists j int :: 0 <= j && j <= rangeindex && bits[j].Position == highest)
+//@   loop 1 invariant forall k int, j int :: 0 <= j && j < k && k <= rangeindex && !bits[k].posSet ==> bits[j].Position < bits[k].Position
+//@   loop 1 invariant forall k int :: 0 < k && k <= rangeindex && !bits[k].posSet ==> (exists j int :: 0 <= j && j < k && bits[k].Position == bits[j].Position + 1)
+//@   loop 1 invariant rangeindex >= 0 && !bits[0].posSet ==> bits[0].Position == 0
+//@   loop 1 decreases len(bits) - rangeindex
+//@   ensures [statedKept] forall k int :: 0 <= k && k < len(bits) && bits[k].posSet ==> bits[k].Position == old(bits[k].Position)
+//@   ensures [unstatedAboveEarlier] forall k int, j int :: 0 <= j && j < k && k < len(bits) && !bits[k].posSet ==> bits[j].Position < bits[k].Position
+//@   ensures [unstatedIsNext] forall k int :: 0 < k && k < len(bits) && !bits[k].posSet ==> (exists j int :: 0 <= j && j < k && bits[k].Position == bits[j].Position + 1)
+//@   ensures [firstIsZero] len(bits) > 0 && !bits[0].posSet ==> bits[0].Position == 0
